@@ -560,6 +560,8 @@ class Extractor:
         if _is_random_chain(e):
             return [('Glob', self._g('np.random'))]
         if _self_attr(e):
+            if e.attr in self.methods and isinstance(e.ctx, ast.Load):
+                return [('Call', e.attr)]          # f = self.method ; ... f(..): whoever holds the reference may call it
             return [('Rd', e.attr)]
         if isinstance(e, ast.Name):
             if e.id in self.mod.generators:
@@ -1227,11 +1229,16 @@ class Extractor:
                             notes.append(f'line {n.lineno}: initial row reads data beyond sample 0')
         return good, bad, notes
 
-    def _args_fact(self, call, var, env, consumed):
-        """arguments of self.m(...) in a loop over `var` -> list of alternatives (prev, data, extra), [] when not understood"""
+    def _args_fact(self, call, var, env, consumed, rowvars=None):
+        """arguments of self.m(...) in a loop over `var` -> list of alternatives (prev, data, extra), [] when not understood.
+        rowvars: names the loop header binds to row `var` of a constructor attribute (enumerate/zip form)"""
         prev, extra = False, []
         data_alts = [[]]
+        rowvars = rowvars or {}
         for i, a in enumerate(call.args):
+            if isinstance(a, ast.Name) and a.id in rowvars:
+                data_alts = [d + [rowvars[a.id]] for d in data_alts]
+                continue
             if isinstance(a, ast.Subscript) and isinstance(a.value, ast.Name) and i == 0 and isinstance(a.slice, ast.BinOp) \
                     and isinstance(a.slice.op, ast.Sub) and isinstance(a.slice.left, ast.Name) and a.slice.left.id == var \
                     and isinstance(a.slice.right, ast.Constant) and a.slice.right.value == 1 and a.value.id not in env:
@@ -1273,15 +1280,68 @@ class Extractor:
                 return []
         return [(prev, d, list(extra)) for d in data_alts]
 
+    def _enumerate_header(self, n, env):
+        """for t, (x, y, ..) in enumerate(zip(A[k:], B[k:], ..), start=k)   (or  for t, x in enumerate(A[k:], start=k)):
+        -> (t, k, {x: attr of A, y: attr of B, ..}) when every zipped operand is the slice [k:] of a constructor attribute (or an
+        understood alias of one) with k equal to the enumerate start, so that x is row t of A; None otherwise"""
+        it = n.iter
+        if not (isinstance(it, ast.Call) and isinstance(it.func, ast.Name) and it.func.id == 'enumerate' and 1 <= len(it.args) <= 2):
+            return None
+        start = 0
+        if len(it.args) == 2:
+            if not (isinstance(it.args[1], ast.Constant) and isinstance(it.args[1].value, int)):
+                return None
+            start = it.args[1].value
+        for k in it.keywords:
+            if k.arg != 'start' or len(it.args) == 2 or not (isinstance(k.value, ast.Constant) and isinstance(k.value.value, int)):
+                return None
+            start = k.value.value
+        if not (isinstance(n.target, ast.Tuple) and len(n.target.elts) == 2 and isinstance(n.target.elts[0], ast.Name)):
+            return None
+        var, rows = n.target.elts[0].id, n.target.elts[1]
+        src = it.args[0]
+        if isinstance(src, ast.Call) and isinstance(src.func, ast.Name) and src.func.id == 'zip' and not src.keywords and src.args:
+            operands = list(src.args)
+            if not (isinstance(rows, (ast.Tuple, ast.List)) and len(rows.elts) == len(operands) and all(isinstance(x, ast.Name) for x in rows.elts)):
+                return None
+            names = [x.id for x in rows.elts]
+        else:
+            operands = [src]
+            if not isinstance(rows, ast.Name):
+                return None
+            names = [rows.id]
+        if len(set(names + [var])) != len(names) + 1:
+            return None
+        rowvars = {}
+        for nm, op in zip(names, operands):
+            if start == 0 and self._attr_of(op, env):
+                rowvars[nm] = self._attr_of(op, env)
+                continue
+            if not (isinstance(op, ast.Subscript) and isinstance(op.slice, ast.Slice) and op.slice.upper is None and op.slice.step is None):
+                return None
+            low = op.slice.lower
+            k = 0 if low is None else (low.value if isinstance(low, ast.Constant) and isinstance(low.value, int) else None)
+            a = self._attr_of(op.value, env)
+            if a is None or k is None or k != start or k < 0:
+                return None                                  # offset of the slice must equal the enumerate start: x is row t
+            rowvars[nm] = a
+        return var, start, rowvars
+
     def _loop_fact(self, n, env, consumed):
-        if not (isinstance(n.target, ast.Name) and isinstance(n.iter, ast.Call) and isinstance(n.iter.func, ast.Name)
-                and n.iter.func.id == 'range' and not n.orelse and len(n.body) == 1 and isinstance(n.body[0], ast.Assign)):
+        if n.orelse or len(n.body) != 1 or not isinstance(n.body[0], ast.Assign):
             return None
-        var = n.target.id
-        r = n.iter.args
-        lo = 0 if len(r) == 1 else (r[0].value if len(r) == 2 and isinstance(r[0], ast.Constant) and isinstance(r[0].value, int) else None)
-        if lo is None:
-            return None
+        rowvars = {}
+        if isinstance(n.target, ast.Name) and isinstance(n.iter, ast.Call) and isinstance(n.iter.func, ast.Name) and n.iter.func.id == 'range':
+            var = n.target.id
+            r = n.iter.args
+            lo = 0 if len(r) == 1 else (r[0].value if len(r) == 2 and isinstance(r[0], ast.Constant) and isinstance(r[0].value, int) else None)
+            if lo is None or n.iter.keywords:
+                return None
+        else:
+            hdr = self._enumerate_header(n, env)
+            if hdr is None:
+                return None
+            var, lo, rowvars = hdr
         st = n.body[0]
         if not (len(st.targets) == 1 and isinstance(st.targets[0], ast.Subscript) and isinstance(st.targets[0].value, ast.Name)
                 and isinstance(st.targets[0].slice, ast.Name) and st.targets[0].slice.id == var):
@@ -1291,7 +1351,7 @@ class Extractor:
         if not (isinstance(c, ast.Call) and _self_attr(c.func) and c.func.attr in self.methods):
             return None
         out = []
-        for prev, data, extra in self._args_fact(c, var, env, consumed):
+        for prev, data, extra in self._args_fact(c, var, env, consumed, rowvars):
             if prev not in (False, arr):
                 return None
             out.append({'callee': c.func.attr, 'lo': lo, 'prev': bool(prev), 'data': data, 'extra': extra})
